@@ -68,6 +68,32 @@ def dynsym_of(lib, off):
     return tab[i][1] if i >= 0 else "?"
 
 
+def elfutils_crash_on_damaged_file(plan, resp, cl):
+    """A segmentation fault whose innermost frame lies in libdw/libelf, in a
+    run that reads a damaged file, in a straight-line use of the API: dwgrep
+    does there what it does on a healthy file, and the fault is elfutils' own
+    lack of robustness on malformed data -- not dwgrep's to answer for.  It
+    *is* dwgrep's if the faulting call is a pull on a result set that has
+    failed before (stale state handed back to libdw, F15)."""
+    if not any(f.get("patches") for f in plan.get("files", [])):
+        return False
+    orc, klass, det = cl
+    if orc not in CRASH or "SEGV" not in klass and "signal:11" not in klass and "signal_11" not in klass:
+        return False
+    m = re.search(r"^\s*#0 0x[0-9a-f]+ in \S+ \((/[^)+]+)\+0x[0-9a-f]+\)", resp.log or det or "", re.M)
+    if not m or not re.search(r"/lib(dw|elf|z|lzma|bz2|zstd)[.-]", m.group(1)):
+        return False
+    k = len(resp.events)
+    if k < len(plan["steps"]):
+        s = plan["steps"][k]
+        if s["op"] in ("PULL", "PULLX") and s["args"]:
+            r = s["args"][0]
+            for ev in resp.events:
+                if ev.op in ("PULL", "PULLX") and ev.args and ev.args[0] == r and ev.outcome == "fail":
+                    return False
+    return True
+
+
 # Allocations made inside these elfutils entry points on a path where the
 # call *fails* belong to elfutils; dwgrep has no handle through which it
 # could release them (DESIGN.md 4.2, "elfutils-internal leaks").
@@ -254,6 +280,11 @@ def simulate(z, plan, profile=None):
 
     cl = classify(resp, last_op_of(plan, resp))
     viol = None
+    if cl is not None and profile != "C12" and elfutils_crash_on_damaged_file(plan, resp, cl):
+        out.discarded = "crash-inside-elfutils-on-damaged-file"
+        out.other = O.Violation(cl[0], cl[2], plan, step=len(resp.events))
+        out.other.klass_str = "elfutils:" + cl[1]
+        cl = None
     if cl is not None and cl[0] == "leak" and "leak" in enforced:
         keep, ignored, log = attribute_leak(z, plan, resp)
         if ignored:
